@@ -464,6 +464,9 @@ func (c *AbstractVariantOperations) Lsh(
 	if err != nil {
 		return nil, err
 	}
+	if value2.AsInteger() < 0 {
+		return nil, errors.NewBadRequestError("", "NEGATIVE_SHIFT", "Shift count must not be negative")
+	}
 
 	// Performs operation.
 	switch value1.Type() {
@@ -500,6 +503,9 @@ func (c *AbstractVariantOperations) Rsh(
 	value2, err = c.Overrides.Convert(value2, Integer)
 	if err != nil {
 		return nil, err
+	}
+	if value2.AsInteger() < 0 {
+		return nil, errors.NewBadRequestError("", "NEGATIVE_SHIFT", "Shift count must not be negative")
 	}
 
 	// Performs operation.
